@@ -154,3 +154,169 @@ def run(chk):
     ob_iter_array(chk, P, maxlen)
     ob_forloop_new(chk, P)
     ob_tablerow_new(chk, P)
+    ob_for_render(chk, P, 3 if chk.tier == 'quick' else 4)
+
+
+# ============================================================================ For::render_to
+from checks.common import *
+
+
+def py_for_reference(n, offset, limit, rev, brk, cont, has_else, outer=2):
+    """independent reference renderer for the replay template below"""
+    out = ''
+    for o in range(1, outer + 1):
+        out += '<'
+        w = ref_window(n, offset, limit, rev)
+        if not w:
+            out += 'ELSE' if has_else else ''
+        L = len(w)
+        for k, idx in enumerate(w):
+            e = idx + 1
+            out += f'[{e}|{k},{k + 1},{L - k - 1},{L - k},{str(k == 0).lower()},{str(k == L - 1).lower()},{L},{o}]'
+            if e == brk: break
+            if e == cont: continue
+            out += 'x'
+        out += '>'
+    return out + '|after'
+
+
+def for_scenario(n, offset, limit, rev, brk, cont, has_else):
+    o_r = None if offset is None else min(offset, 10 ** 6); l_r = None if limit is None else min(limit, 10 ** 6)
+    params = (f' limit:{l_r}' if l_r is not None else '') + (f' offset:{o_r}' if o_r is not None else '') + (' reversed' if rev else '')
+    body = ('[{{i}}|{{forloop.index0}},{{forloop.index}},{{forloop.rindex0}},{{forloop.rindex}},{{forloop.first}},{{forloop.last}},{{forloop.length}},{{forloop.parentloop.index}}]'
+            '{% if i == brk %}{% break %}{% endif %}{% if i == cont %}{% continue %}{% endif %}x')
+    tpl = '{% for o in (1..2) %}<{% for i in a' + params + ' %}' + body + ('{% else %}ELSE' if has_else else '') + '{% endfor %}>{% endfor %}|after'
+    sc = {'kind': 'template', 'template': tpl, 'globals': {'a': list(range(1, n + 1)), 'brk': brk if brk else -1, 'cont': cont if cont else -1}}
+    exp = py_for_reference(n, o_r or 0, l_r, rev, brk, cont, has_else)
+    return sc, exp
+
+
+def ob_for_render(chk, P, maxn):
+    with chk.obligation('For::render_to/iteration', 'for loop: the body is rendered once per selected element, in order, in a scope holding exactly {forloop, var} over the '
+                        "caller's runtime, with a truthful forloop record and parentloop; else iff nothing selected; break ends the loop, continue only the iteration; "
+                        'the interrupt never leaks out; an error stops the loop and is returned; no panic',
+                        {'array length': f'0..{maxn}', 'offset': 'absent or any i64', 'limit': 'absent or any i64', 'reversed': 'both', 'else': 'both',
+                         'enclosing forloop': 'present/absent', 'body': 'abstract child: any of Ok / Ok+break / Ok+continue / Err per iteration'}) as ob:
+        fn = P.find_method('For', 'render_to', 'Renderable', 'lib')
+        ex = Executor(P, models_with(registers_models())); ex.seed = chk.seed; ex.max_steps = 20000
+        ob.stubs += ['runtime: abstract parent (Inv)', 'body / else: abstract children inside a real Template', 'collection expression: stub returning a concrete array of distinct integers',
+                     'limit/offset expressions: stub returning a symbolic integer']
+        ob.assumptions += ['error-message construction neither panics nor has effects']
+        for n in range(maxn + 1):
+            for has_limit in (False, True):
+                for has_offset in (False, True):
+                    for rev in (False, True):
+                        for has_else in (False, True) if n <= 1 else (True,):
+                            for outer in (False, True) if n == 2 else (True,):
+                                run_for_case(ob, ex, fn, n, has_limit, has_offset, rev, has_else, outer)
+        ob.absorb(ex)
+
+
+def run_for_case(ob, ex, fn, n, has_limit, has_offset, rev, has_else, outer):
+    st = State()
+    penv = ParentEnv(('forloop',) if outer else ())
+    body = ChildEnv('body', None, 0)
+    els = ChildEnv('else', None, 0, may_interrupt=False)
+    lim = z3.BitVec('limit', 64); off = z3.BitVec('offset', 64)
+    arr = Adt('Value', 'Array', [VecV([value_scalar(scalar_int(k + 1)) for k in range(n)])])
+    from checks.C15 import expr_stub
+    self_ = Adt('For', None, [StrV('i', 'KString'), Adt('RangeExpression', 'Array', [expr_stub(arr)]), mk_template(st, [body]),
+                              Some(mk_template(st, [els])) if has_else else NONE,
+                              Some(expr_stub(value_scalar(scalar_int(Int(lim, 'i64'))))) if has_limit else NONE,
+                              Some(expr_stub(value_scalar(scalar_int(Int(off, 'i64'))))) if has_offset else NONE,
+                              Bool(rev)], ['var_name', 'range', 'item_template', 'else_template', 'limit', 'offset', 'reversed'])
+    writer = st.ref(SinkEnv('W', may_fail=False).abs(), True)
+    rt = st.ref(penv.abs())
+    for s2, kind_, val in ex.run(fn, [st.ref(self_), writer, rt], st):
+        ob.paths += 1; ob.reached()
+        cl = [c[1] for c in calls(s2, 'child')]
+        outcomes = list(s2.env.get('child_outcomes', ()))
+        body_calls = [c for c in cl if c[0] == 'body']; else_calls = [c for c in cl if c[0] == 'else']
+        body_out = [o for o in outcomes if o[0] == 'body']
+        def witness():
+            m = ob.decide(ex, s2.conds, z3.BoolVal(True))
+            o = m.eval(off, model_completion=True).as_long() if has_offset else None
+            l = m.eval(lim, model_completion=True).as_long() if has_limit else None
+            return m, o, l
+        def report(role, what):
+            m, o, l = witness()
+            # element values at which the body broke / continued
+            brk = cont = None
+            for (c, oc) in zip(body_calls, body_out):
+                elem = dict(c[1][2]).get('i') if len(c[1]) > 2 and isinstance(c[1][2], tuple) else None
+                ev = elem[1] if isinstance(elem, tuple) else None
+                if oc[3] == 'Break' and brk is None: brk = ev
+                if oc[3] == 'Continue' and cont is None: cont = ev
+            sc, exp = for_scenario(n, o, l, rev, brk, cont, has_else)
+            ob.violation(role, f'{what} (len={n} offset={o} limit={l} reversed={rev} else={has_else} break_at={brk} continue_at={cont})',
+                         {'len': n, 'offset': o, 'limit': l, 'reversed': rev, 'body_calls': repr(body_calls)[:600], 'outcomes': repr(outcomes)}, sc,
+                         lambda res, e=exp: res.get('outcome') != 'ok' or res.get('output') != e)
+        if kind_ == 'panic':
+            report('For::render_to/panic', f'for loop panics: {val}'); continue
+        # ---- what the body saw
+        seen = []; bad = None
+        L = None
+        for k, c in enumerate(body_calls):
+            scope = c[1]
+            if not (scope[0] == 'StackFrame' and scope[1] == ('abs', 'parent:P')):
+                bad = f'body scope is not a plain frame over the caller runtime: {scope}'; break
+            d = dict(scope[2]) if isinstance(scope[2], tuple) else {}
+            if set(d) != {'forloop', 'i'}:
+                bad = f'body scope must hold exactly forloop and the loop variable, holds {sorted(d)}'; break
+            fl = d['forloop']; el = d['i']
+            if not (isinstance(fl, tuple) and fl[0] == 'ForloopObject'):
+                bad = f'forloop is {fl}'; break
+            f = dict(fl[1])
+            L = f['length'] if L is None else L
+            truth = dict(length=L, index0=k, index=k + 1, rindex0=L - k - 1, rindex=L - k, first=(k == 0), last=(k == L - 1))
+            got = {x: f[x] for x in truth}
+            if got != truth:
+                bad = f'forloop record untruthful at iteration {k}: {got}'; break
+            want_parent = ('abs', ('PVAL', ('forloop',))) if outer else None
+            if f['parentloop'] != want_parent:
+                bad = f'parentloop = {f["parentloop"]}, expected {want_parent}'; break
+            if c[2] != "Abs(sink:W)": bad = f'body rendered into a different writer: {c[2]}'; break
+            seen.append(el[1] if isinstance(el, tuple) else el)
+        # ---- control flow of the loop
+        terminated = None
+        for k, oc in enumerate(body_out):
+            if oc[2] == 'err': terminated = ('err', k); break
+            if oc[3] == 'Break': terminated = ('break', k); break
+        if bad is None:
+            if terminated and len(body_calls) != terminated[1] + 1:
+                bad = f'body rendered {len(body_calls)} times although iteration {terminated[1]} ended the loop with {terminated[0]}'
+            elif (val.variant == 'Err') != (terminated is not None and terminated[0] == 'err' or any(o[0] == 'else' and o[2] == 'err' for o in outcomes)):
+                bad = f'result {val.variant} does not match the children\'s outcomes {outcomes}'
+            elif interrupt_get(s2) is not None:
+                bad = f'interrupt {interrupt_get(s2)} left pending after the loop returned'
+            elif else_calls and (not has_else or body_calls):
+                bad = 'else branch rendered although elements were selected'
+            elif else_calls and else_calls[0][1] != ('abs', 'parent:P'):
+                bad = f'else rendered in scope {else_calls[0][1]}'
+        if bad:
+            report('For::render_to/' + bad.split(':')[0].split(' at ')[0][:48].replace(' ', '-'), bad); continue
+        # ---- the visited elements are exactly the selected window, for EVERY offset/limit on this path
+        good = []
+        for offc in range(n + 1):
+            for cnt in range(n - offc + 1):
+                expw = [k + 1 for k in range(offc, offc + cnt)]
+                if rev: expw = expw[::-1]
+                if terminated: okseq = (seen == expw[:terminated[1] + 1]) and len(expw) > terminated[1]
+                else: okseq = (seen == expw)
+                if not okseq: continue
+                if expw and L != len(expw): continue
+                if not expw and has_else and val.variant != 'Err' and not else_calls: continue
+                c_off = (off == offc) if offc < n else z3.UGE(off, z3.BitVecVal(n, 64))
+                if not has_offset: c_off = z3.BoolVal(offc == 0)
+                if has_limit:
+                    rem = n - offc
+                    c_cnt = (lim == cnt) if cnt < rem else z3.UGE(lim, z3.BitVecVal(rem, 64))
+                else:
+                    c_cnt = z3.BoolVal(cnt == n - offc)
+                good.append(z3.And(c_off, c_cnt))
+        post = z3.Or(*good) if good else z3.BoolVal(False)
+        m = ob.decide(ex, s2.conds, z3.Not(post))
+        if m is not None:
+            report('For::render_to/wrong-elements', f'body saw elements {seen} (forloop.length={L}, else rendered={bool(else_calls)})')
+        else:
+            ob.sample({'len': n, 'limit': has_limit, 'offset': has_offset, 'reversed': rev, 'seen': seen, 'outcomes': [(o[2], o[3]) for o in body_out]})
